@@ -151,7 +151,7 @@ Definition balance_span (a b : Z) (u : Z * Z) : Z * Z :=
   let e0 := s0 + l0 in
   let s2 := fst u in let e2 := s2 + snd u in
   if e2 <=? s0 then (e2, s0 - e2)
-  else if e0 <=? s2 then (s2, e0 - s2)
+  else if e0 <=? s2 then (e0, s2 - e0)
   else let e1 := Z.min e0 e2 in let s1 := Z.max s0 s2 in (s1, e1 - s1).
 
 Definition first_only {A} (r : res (list A)) : res (list A) :=
